@@ -113,11 +113,31 @@ def static_checks(tier):
     return [({'static': 'set-iteration-scan'}, {'verdict': Verdict.OK, 'detail': f'set-iteration sites found: {sorted(sites)} (all modelled)'})]
 
 
-KINDS = ['ambiguous', 'multifile', 'prefix-keys', 'same-name-in-two-dirs', 'ambiguous', 'multifile']
+KINDS = ['ambiguous', 'multifile', 'prefix-keys', 'same-name-in-two-dirs', 'same-type-ties', 'multifile']
 
 
 def gen_case(rng, tier, kind=None, variant=0):
     kind = kind or rng.choice(KINDS)
+    if kind == 'same-type-ties':
+        # several alternatives of ONE operand type in a set that accept the same text: the first one listed wins - in every run
+        e1 = {'zz': 1, 'nz': 2}
+        e2 = {'zz': 5, 'nz': 6, 'cc': 7, 'nc': 8}
+        ov = {'en_short': {'type': 'enumeration', 'bytecode': {'size': 8, 'value_dict': e1},
+                           'argument': {'size': 8, 'byte_align': True, 'value_dict': {k: v + 16 for k, v in e1.items()}}},
+              'en_long': {'type': 'enumeration', 'bytecode': {'size': 8, 'value_dict': e2},
+                          'argument': {'size': 8, 'byte_align': True, 'value_dict': {k: v + 32 for k, v in e2.items()}}},
+              'n8': {'type': 'numeric', 'bytecode': {'value': 0x20, 'size': 8}, 'argument': {'size': 8, 'byte_align': True}},
+              'n16': {'type': 'numeric', 'bytecode': {'value': 0x21, 'size': 8}, 'argument': {'size': 16, 'byte_align': True}},
+              'ir0': {'type': 'indirect_register', 'register': 'ra', 'bytecode': {'value': 0x30, 'size': 8}},
+              'ir1': {'type': 'indirect_register', 'register': 'ra', 'bytecode': {'value': 0x31, 'size': 8},
+                      'offset': {'size': 8, 'byte_align': True}}}
+        items = list(ov.items())
+        rng.shuffle(items)
+        isa = {'description': 'c15t', 'general': {'address_size': 16, 'endian': 'big', 'registers': ['ra', 'rb']},
+               'operand_sets': {'mix': {'operand_values': dict(items)}},
+               'instructions': {'br': {'bytecode': {'value': 0x77, 'size': 8}, 'operands': {'count': 1, 'operand_sets': {'list': ['mix']}}}}}
+        asm = ''.join(f'br {t}\n' for t in rng.sample(['zz', 'nz', 'cc', '5', '200', '[ra]', '[ra + 2]', 'nc'], 6))
+        return {'kind': kind, 'isa': isa, 'files': {'main.asm': asm}, 'dirs': []}
     if kind == 'same-name-in-two-dirs':
         # an include name that exists in two search directories - as identical copies, or with different text of the same
         # length: whatever the assembler makes of it, it must make the same of it in every run and for every -I order
